@@ -21,7 +21,8 @@ THEOREMS = [
 ]
 RULE = ("catalogs created in all three patch modes (given centres in random order incl. centres that attract no "
         "object, patch-index column with gaps, patch_num via treecorr), 1..6 patches incl. single-object patches, "
-        "weighted / unweighted, 1 and 3 workers, small chunk sizes; checked: num_records, sum_weights (EXACT), every "
+        "weighted / unweighted, 1 and 3 workers, small chunk sizes, spatially sorted input whose patches first appear in "
+        "descending index order; checked: num_records, sum_weights (EXACT), every "
         "record within the stored radius of the stored centre (robust atan2 formula, 1e-12 slack), keys = 0..N-1 and "
         "centres bitwise equal to the given ones, nearest reported centre reproduces the partition, reopened catalog "
         "has identical metadata; pairs of catalogs with differing id sets / shifted centres must be refused by "
@@ -115,6 +116,12 @@ def run(prop, tier, seed, replay):
                 s = G.make_sample(rng, field, n=max(n, N), extent_mode=rng.choice(["compact", "wide", "mixed"]),
                                   zrange=(0.1, 1.0), weights=weights)
                 chunk = rng.choice([None, 7, 16])
+                if mode == "centers" and ci % 2 == 0:
+                    # spatially sorted input read in small chunks: patches make their first appearance one after the
+                    # other, highest index first (order of first appearance != order of the ids)
+                    idx = np.argsort(-np.asarray(s["patch"]), kind="stable")
+                    s = {k: (v if v is None or k == "extent" or np.ndim(v) == 0 else np.asarray(v)[idx]) for k, v in s.items()}
+                    chunk = 7
                 rep = {"mode": mode, "N": N, "workers": workers, "chunksize": chunk, "field": {"ra": field["ra"].tolist(), "dec": field["dec"].tolist()},
                        "sample": {k: (None if v is None else np.asarray(v).tolist()) for k, v in s.items() if k != "extent"}}
                 ck.count(f"mode={mode}")
